@@ -9,7 +9,7 @@ d=/tmp/seedtest_$$
 mkdir -p $d
 git -C /repo worktree add -q --detach $d/repo HEAD
 ( cd $d/repo && git apply -3 "$patch" ) || { echo "PATCH DOES NOT APPLY"; git -C /repo worktree remove --force $d/repo; rm -rf $d; exit 3; }
-rsync -a --exclude .git --exclude .cache/work --exclude .cache/tmp --exclude replay --exclude evidence /verif/ $d/verif/
+rsync -a --exclude .git --exclude .cache/work --exclude .cache/tmp --exclude replay --exclude evidence /verif/ $d/verif/ || [ $? -eq 24 ]
 sed -i "s|path = \"/repo\"|path = \"$d/repo\"|" $d/verif/harness/Cargo.toml
 for id in "$@"; do
   echo "== $id against $(basename $patch)"
